@@ -238,7 +238,8 @@ func (e *Env) stepCall(w *World, act Action) (*World, []*Leg) {
 	}
 	cur := e.afterSuccess(post, leg, execAddr, &legs)
 	// A4 (ii): the user's own cross-shard transaction continues on the destination shard
-	if leg.Side == "sender" && !vmcommon.IsSmartContractAddress(act.Caller) && dst == nil {
+	// (a contract's asynchronous call of a built-in function on a remote account continues there too)
+	if leg.Side == "sender" && (!vmcommon.IsSmartContractAddress(act.Caller) || act.CallType == vmcommon.AsynchronousCall) && dst == nil {
 		emittedToRecipient := false
 		for _, m := range leg.Emitted {
 			if bytes.Equal(m.To, act.Recipient) {
